@@ -72,7 +72,9 @@ class World:
             return ("#!/bin/sh\n# content %d\nexit 3\n" % cid).encode()
         # what `--version` prints is free text as far as the setup tool on Linux is concerned
         text = ["1.0.%d", "azure-proxy-agent 1.0.%d", "v1.0.%d", "1.0.%d-beta+build7"][cid % 4] % cid
-        return ("#!/bin/sh\n# content %d\necho '%s'\n" % (cid, text)).encode()
+        # files of clearly different lengths (a shorter file replacing a longer one must not leave a tail behind)
+        pad = "# " + "x" * (37 * (cid % 11)) + "\n"
+        return ("#!/bin/sh\n# content %d\necho '%s'\n%s" % (cid, text, pad)).encode()
 
     def put(self, name, cid):
         p = self.paths[name]
@@ -93,7 +95,9 @@ class World:
             return None
         for line in b.split(b"\n"):
             if line.startswith(b"# content "):
-                return int(line.split()[-1])
+                cid = int(line.split()[-1])
+                # byte for byte the file written for that content id - not merely something that starts like it
+                return cid if b == self.content(cid) else -1
         return -1
 
     def state(self):
